@@ -5,16 +5,22 @@ from .. import au, sym
 from ..core import AnalysisError
 from ..rules import codec_c04 as cc
 from ..rules import c04_formats as ff
+from ..rules import hc_flat, hc_eval as hv, hc_geo, hc_text
 from ..rules.c04_formats import IOMOD, EXPORT, BASE, GEO, ATTR
 
 IO = "mesh.io.io"
 MESH = "mesh.mesh"
 EXPLANATION = (
-    "Static reader/writer agreement of the mesh codecs in mouette/mesh/io: the tables each exporter and importer "
-    "implement (extension dispatch, section keywords / tags, element kind and arity per block, index base, header "
-    "counts, geogram chunk header layout and names, attribute type table) are extracted by role from the current "
-    "AST and compared pairwise; text float formatting and vertex order preservation are checked on every writer. "
-    "Decides structural necessary conditions only; no file is written or parsed.")
+    "Static reader/writer agreement of the mesh codecs in mouette/mesh/io.  Every exporter / importer is first flattened (helper "
+    "functions, nested defs and lambdas inlined, loops over literal tables unrolled, module constants substituted); the text an "
+    "exporter emits is then computed as a tree (literals, rendered values, repetitions, alternatives) by abstract interpretation of "
+    "its statements, whatever way the text is assembled (write / writelines / print / join / format / f-strings / accumulators), and "
+    "the rows an importer stores are modelled with their token positions, conversions and guards.  The tables both sides implement "
+    "(extension dispatch, section keywords / tags, element kind and arity per block, index base, header counts, geogram chunk header "
+    "layout and names, attribute type table, emission conditions) are compared pairwise; index sets of small loader loops and the class "
+    "table are obtained by evaluating the extracted fragment over abstract tokens.  A construct the models do not read gives an "
+    "UNDECIDED obligation (exit 2), never a violation.  Structural necessary conditions only; no file is written or parsed, no "
+    "repository code is imported or run.")
 
 RULES = {
     "C04-X1": "read_by_extension and write_by_extension have the same key set, normalise the extension identically and pair "
@@ -50,17 +56,22 @@ ASSUMPTIONS = [
 def run(ctx):
     x1_dispatch(ctx)
     x1_load_save(ctx)
-    a1_type_table(ctx)
-    ff.run_formats(ctx)
+    x1_save_preparation(ctx)
+    geo = ff.run_formats(ctx)
+    a1_type_table(ctx, geo)
+
+
+KEEP = ("read_by_extension", "write_by_extension", "_instanciate_raw_mesh_data")
 
 
 # ----------------------------------------------------------------------- C04-X1
 def _dispatch_table(ctx, fname):
-    fn = ctx.repo.func(IO, fname)
-    site = ctx.site(IO, fn)
+    """(flattened fn, site, dict literal, key expr, lookup node, bindings)"""
+    fn0 = ctx.repo.func(IO, fname)
+    site = ctx.site(IO, fn0)
+    fn = hc_flat.flat(ctx.repo, IO, fn0)
     b = sym.Bindings(fn)
     for n in au.walk(fn):
-        # {...}.get(KEY, default)  or  {...}[KEY]
         d, key = None, None
         if isinstance(n, ast.Call) and isinstance(n.func, ast.Attribute) and n.func.attr == "get" and n.args:
             d, key = n.func.value, n.args[0]
@@ -68,11 +79,18 @@ def _dispatch_table(ctx, fname):
             d, key = n.value, n.slice
         if d is None:
             continue
-        if isinstance(d, ast.Name):
-            d = b.reaching(d.id, n) or d
+        for _ in range(3):
+            if isinstance(d, ast.Name):
+                d = b.reaching(d.id, n) or d
         if isinstance(d, ast.Dict) and d.keys and all(isinstance(k, ast.Constant) and isinstance(k.value, str) for k in d.keys):
             return fn, site, d, key, n, b
     return fn, site, None, None, None, b
+
+
+def _key_signature(e):
+    """string methods applied to the extension before the look-up (lower / upper / casefold / strip ..)"""
+    return sorted(au.call_tail(c) for c in au.walk(e) if isinstance(c, ast.Call) and isinstance(c.func, ast.Attribute)
+                  and c.func.attr in ("lower", "upper", "casefold", "strip", "lstrip", "rstrip", "title", "capitalize", "swapcase"))
 
 
 def x1_dispatch(ctx):
@@ -81,23 +99,24 @@ def x1_dispatch(ctx):
     for fname in ("read_by_extension", "write_by_extension"):
         fn, site, d, key, node, b = _dispatch_table(ctx, fname)
         if d is None:
-            ctx.fail("C04-X1", site, f"{fname}: extension -> function table not found",
-                     "the dispatch is a dict literal keyed by extension")
+            ctx.undecided("C04-X1", site, f"{fname}: extension -> function table not recognised",
+                          "the dispatch is expected to be a dict keyed by extension")
             return
         ps = au.params(fn)
-        fparam = ps[-1] if fname.startswith("write") else ps[0]
-        keyn = au.src(cc.subst(cc.resolve(b, key, at=node), {fparam: ast.Name(id="FILE", ctx=ast.Load())}))
+        fparam = ps[1] if fname.startswith("write") and len(ps) > 1 else ps[0]
+        keyr = cc.subst(cc.resolve(b, key, at=node), {fparam: ast.Name(id="FILE", ctx=ast.Load())})
         entries = {}
         for k, v in zip(d.keys, d.values):
             r = repo.resolve(IO, v.id) if isinstance(v, ast.Name) else None
             entries[k.value] = (v, r)
-        tabs[fname] = (fn, site, entries, keyn, node, b, fparam)
+        tabs[fname] = (fn, site, entries, keyr, node, b, fparam)
     (rfn, rsite, rtab, rkey, rnode, rb, rfile), (wfn, wsite, wtab, wkey, wnode, wb, wfile) = \
         tabs["read_by_extension"], tabs["write_by_extension"]
-    ff.floor(ctx, "C04-X1 dispatch entries", min(len(rtab), len(wtab)), 6, wsite)
-    ctx.check(rkey == wkey, "C04-X1", wsite, f"extension key is `{wkey}` when writing but `{rkey}` when reading",
-              "a file name accepted by save() must select the same format in load() (e.g. upper-case extensions)",
-              note=f"both tables are looked up with {rkey}")
+    if au.src(rkey) == au.src(wkey) or _key_signature(rkey) == _key_signature(wkey):
+        ctx.ok("C04-X1", wsite, "both tables are looked up with the same normalisation of the extension")
+    else:
+        ctx.fail("C04-X1", wsite, f"extension key is normalised with {_key_signature(wkey)} when writing but {_key_signature(rkey)} when reading",
+                 "a file name accepted by save() must select the same format in load() (e.g. upper-case extensions)")
     for ext in sorted(set(rtab) | set(wtab)):
         if ext not in rtab or ext not in wtab:
             miss = "read_by_extension" if ext not in rtab else "write_by_extension"
@@ -105,124 +124,318 @@ def x1_dispatch(ctx):
                      f"a '.{ext}' file can be {'written but not loaded' if ext not in rtab else 'loaded but not saved'}")
             continue
         (rv, rr), (wv, wr) = rtab[ext], wtab[ext]
-        ok = bool(rr and wr and rr[0] == "def" and wr[0] == "def" and rr[1] == wr[1]
-                  and rr[2].startswith("import_") and wr[2].startswith("export_")
+        if not (rr and wr and rr[0] == "def" and wr[0] == "def"):
+            ctx.undecided("C04-X1", wsite, f"extension '{ext}': the functions of the dispatch tables are not resolved to definitions", "")
+            continue
+        ok = bool(rr[1] == wr[1] and rr[2].startswith("import_") and wr[2].startswith("export_")
                   and rr[2][len("import_"):] == wr[2][len("export_"):])
+        if not ok and not (rr[2].startswith("import_") and wr[2].startswith("export_")):
+            ctx.undecided("C04-X1", wsite, f"extension '{ext}': naming convention import_K / export_K not recognised", "")
+            continue
         ctx.check(ok, "C04-X1", wsite,
-                  f"extension '{ext}' is read by {au.src(rv)} but written by {au.src(wv)}",
-                  f"'{ext}': importer resolves to {rr}, exporter to {wr}; a file saved under this extension is parsed by the "
-                  f"codec of another format", note=f"'{ext}' -> {au.src(rv)} / {au.src(wv)} from one module")
+                  f"extension '{ext}' is read by {rr[2]} but written by {wr[2]}",
+                  f"'{ext}': importer resolves to {rr[1]}.{rr[2]}, exporter to {wr[1]}.{wr[2]}; a file saved under this extension is parsed by the "
+                  f"codec of another format", note=f"'{ext}' -> {rr[2]} / {wr[2]} from one module")
+
+    # an unsupported extension raises: the test must be `selected function is None`, not its negation
+    for fn_, site_, node_, b_ in ((rfn, rsite, rnode, rb), (wfn, wsite, wnode, wb)):
+        target = {au.norm(node_), au.norm(cc.resolve(b_, node_, at=node_))}
+        for rz in [n for n in au.walk(fn_) if isinstance(n, ast.Raise)]:
+            for t, pol in au.conditions(rz, toplevel=True):
+                t, pol = au.strip_not(t, pol)
+                if isinstance(t, ast.Compare) and len(t.ops) == 1 and isinstance(t.ops[0], (ast.Is, ast.IsNot, ast.Eq, ast.NotEq)) \
+                        and isinstance(t.comparators[0], ast.Constant) and t.comparators[0].value is None:
+                    l = cc.resolve(b_, t.left, at=rz)
+                    if au.norm(l) in target:
+                        is_none = isinstance(t.ops[0], (ast.Is, ast.Eq)) == pol
+                        ctx.check(is_none, "C04-X1", site_, "the dispatch raises when the extension IS in the table",
+                                  "every supported format is rejected as unsupported", note="unsupported extension raises")
+
     # the selected function is applied to (filename) / (mesh, filename) and the reader returns its result
     def selected_calls(fn, node, b):
-        names = set()
-        st = au.enclosing_stmt(node)
-        for t in au.assign_targets(st):
-            names |= set(au.assigned_names(t))
-        return [c for c in au.calls(fn) if isinstance(c.func, ast.Name) and c.func.id in names]
+        out = []
+        target = {au.norm(node), au.norm(cc.resolve(b, node, at=node))}
+        for c in au.calls(fn):
+            if c is node or not isinstance(c.func, ast.Name):
+                continue
+            r = cc.resolve(b, c.func, at=c)
+            if any(au.norm(x) in target for x in ast.walk(r) if isinstance(x, ast.expr)):
+                out.append(c)
+        return out
     rc = selected_calls(rfn, rnode, rb)
-    ok = len(rc) == 1 and [au.src(a) for a in rc[0].args] == [rfile] and not rc[0].keywords
-    if ok:
+    if len(rc) != 1:
+        ctx.undecided("C04-X1", rsite, "read_by_extension: the call of the selected importer is not recognised", "")
+    else:
+        args = [au.src(a) for a in rc[0].args]
+        if args[:1] == [rfile]:
+            ctx.ok("C04-X1", rsite, "read_by_extension calls the selected importer on the file name it was given")
+        elif args and args[0] in au.params(rfn):
+            ctx.fail("C04-X1", rsite, "read_by_extension does not call the selected importer on the file name it was given",
+                     "the parsed data of the selected importer must be what load() receives")
+        else:
+            ctx.undecided("C04-X1", rsite, "read_by_extension: argument of the selected importer not recognised", "")
         ret = [s for s in au.stmts(rfn.body) if isinstance(s, ast.Return) and s.value is not None]
         keep = tuple({rc[0].func.id} | set(au.params(rfn)))
-        ok = bool(ret) and all(au.same(cc.resolve(rb, s.value, at=s, keep=keep), rc[0]) for s in ret)
-    ctx.check(ok, "C04-X1", rsite, "read_by_extension does not return import_fun(filename)",
-              "the parsed data of the selected importer must be what load() receives")
+        if not ret:
+            ctx.fail("C04-X1", rsite, "read_by_extension does not return the parsed data", "")
+        else:
+            ok = all(au.same(cc.resolve(rb, s.value, at=s, keep=keep), rc[0]) for s in ret)
+            if ok:
+                ctx.ok("C04-X1", rsite, "read_by_extension returns import_fun(filename)")
+            else:
+                ctx.undecided("C04-X1", rsite, "read_by_extension: the returned value is not recognised as the result of the importer", "")
     wc = selected_calls(wfn, wnode, wb)
     wps = au.params(wfn)
-    ok = len(wc) == 1 and [au.src(a) for a in wc[0].args] == wps[:2] and not wc[0].keywords
-    ctx.check(ok, "C04-X1", wsite, "write_by_extension does not call export_fun(mesh, filename)",
-              "every exporter takes (mesh, path) in this order")
+    if len(wc) != 1:
+        ctx.undecided("C04-X1", wsite, "write_by_extension: the call of the selected exporter is not recognised", "")
+    else:
+        wargs = [au.src(a) for a in wc[0].args]
+        if wargs[:2] == wps[:2]:
+            ctx.ok("C04-X1", wsite, "write_by_extension calls export_fun(mesh, filename)")
+        elif len(wargs) >= 2 and set(wargs[:2]) <= set(wps):
+            ctx.fail("C04-X1", wsite, "write_by_extension does not call export_fun(mesh, filename)", "every exporter takes (mesh, path) in this order")
+        else:
+            ctx.undecided("C04-X1", wsite, "write_by_extension: arguments of the selected exporter not recognised", "")
     for ext, (wv, wr) in sorted(wtab.items()):
         if wr and wr[0] == "def":
             efn = repo.modules[wr[1]].funcs.get(wr[2])
             if efn is not None:
-                ctx.check(len(au.params(efn)) == 2, "C04-X1", ctx.site(wr[1], efn),
-                          f"{wr[2]} does not take exactly (mesh, path)", "write_by_extension calls export_fun(mesh, filename)")
+                a = efn.args
+                required = len(a.posonlyargs + a.args) - len(a.defaults)
+                ctx.check(required <= 2 <= len(a.posonlyargs + a.args) or (a.vararg is not None and required <= 2), "C04-X1",
+                          ctx.site(wr[1], efn), f"{wr[2]} cannot be called as export_fun(mesh, path)",
+                          "write_by_extension calls export_fun(mesh, filename)")
 
 
 def x1_load_save(ctx):
     repo = ctx.repo
-    # load: data = read_by_extension(filename) -> _instanciate_raw_mesh_data(data, dim)
-    fn = repo.func(MESH, "load")
-    site = ctx.site(MESH, fn)
+    fn0 = repo.func(MESH, "load")
+    site = ctx.site(MESH, fn0)
+    fn = hc_flat.flat(repo, MESH, fn0, keep=KEEP)
     b = sym.Bindings(fn)
     ps = au.params(fn)
     inst = [c for c in au.calls(fn) if au.call_tail(c) == "_instanciate_raw_mesh_data"]
-    ok = False
-    if inst and inst[0].args:
+    reads = [c for c in au.calls(fn) if au.call_tail(c) == "read_by_extension"]
+    if not inst or not inst[0].args or not reads:
+        ctx.undecided("C04-X1", site, "load: read_by_extension(..) -> _instanciate_raw_mesh_data(..) chain not recognised", "")
+    else:
         a0 = cc.resolve(b, inst[0].args[0], at=inst[0])
-        ok = isinstance(a0, ast.Call) and au.call_tail(a0) == "read_by_extension" and \
-            [au.src(x) for x in a0.args] == ps[:1]
-    ctx.check(ok, "C04-X1", site, "load does not build the mesh from read_by_extension(filename)",
-              "load(filename) must parse the file it was given")
-    fn = repo.func(MESH, "save")
-    site = ctx.site(MESH, fn)
+        if isinstance(a0, ast.Call) and au.call_tail(a0) == "read_by_extension":
+            got = [au.src(x) for x in a0.args][:1]
+            if got == ps[:1]:
+                ctx.ok("C04-X1", site, "load reads the file it was given")
+            elif got and got[0] in ps:
+                ctx.fail("C04-X1", site, "load does not read the file it was given", "load(filename) must parse the file it was given")
+            else:
+                ctx.undecided("C04-X1", site, "load: the argument of read_by_extension is not recognised as the file name", "")
+        else:
+            ctx.undecided("C04-X1", site, "load: the data handed to _instanciate_raw_mesh_data is not recognised as the parsed file", "")
+    fn0 = repo.func(MESH, "save")
+    site = ctx.site(MESH, fn0)
+    fn = hc_flat.flat(repo, MESH, fn0, keep=KEEP)
     b = sym.Bindings(fn)
     ps = au.params(fn)
     wr = [c for c in au.calls(fn) if au.call_tail(c) == "write_by_extension"]
-    ok = False
-    if len(wr) == 1 and len(wr[0].args) == 2:
+    if len(wr) != 1 or len(wr[0].args) < 2:
+        ctx.undecided("C04-X1", site, "save: the call write_by_extension(raw mesh, filename) is not recognised", "")
+    else:
         a0 = cc.resolve(b, wr[0].args[0], at=wr[0])
-        ok = isinstance(a0, ast.Call) and au.call_tail(a0) == "RawMeshData" and [au.src(x) for x in a0.args] == ps[:1] \
-            and au.src(wr[0].args[1]) == ps[1] and not au.guards(wr[0])
-    ctx.check(ok, "C04-X1", site, "save does not call write_by_extension(RawMeshData(mesh), filename) unconditionally",
-              "save(mesh, filename) must write the mesh it was given to the file it was given")
-    # class table
-    fn = repo.func(MESH, "_instanciate_raw_mesh_data")
-    site = ctx.site(MESH, fn)
+        if isinstance(a0, ast.Call) and au.call_tail(a0) == "RawMeshData":
+            g1_, g2_ = [au.src(x) for x in a0.args][:1], au.src(wr[0].args[1])
+            if g1_ == ps[:1] and g2_ == ps[1]:
+                ctx.ok("C04-X1", site, "save writes RawMeshData(mesh) to filename")
+            elif g1_ and g1_[0] in ps and g2_ in ps:
+                ctx.fail("C04-X1", site, "save does not write the mesh it was given to the file it was given",
+                         "save(mesh, filename) must call write_by_extension(RawMeshData(mesh), filename)")
+            else:
+                ctx.undecided("C04-X1", site, "save: arguments of write_by_extension not recognised", "")
+        else:
+            ctx.undecided("C04-X1", site, "save: the object written is not recognised as RawMeshData(mesh)", "")
+        if au.guards(wr[0]):
+            ctx.undecided("C04-X1", site, "save: the file is written under a condition", "")
+    # class table, by evaluation for every (requested dimension, dimensionality of the data)
+    fn0 = repo.func(MESH, "_instanciate_raw_mesh_data")
+    site = ctx.site(MESH, fn0)
+    fn = hc_flat.flat(repo, MESH, fn0)
     ps = au.params(fn)
     want = {0: "PointCloud", 1: "PolyLine", 2: "SurfaceMesh", 3: "VolumeMesh"}
-    dimname = ps[1] if len(ps) > 1 else None
-    got = {}
-    for k in want:
-        for st in au.stmts(fn.body):
-            if isinstance(st, ast.If) and cc.is_chain_head(st):
-                hit = None
-                for test, body in cc.if_chain(st):
-                    v = True if test is None else cc.eval_test(test, {dimname: k})
-                    if v is None:
-                        hit = None
-                        break
-                    if v:
-                        hit = body
-                        break
-                if hit:
-                    for s in hit:
-                        if isinstance(s, ast.Return) and isinstance(s.value, ast.Call):
-                            got.setdefault(k, (au.call_tail(s.value), [au.src(a) for a in s.value.args]))
+    if len(ps) < 2:
+        ctx.undecided("C04-X1", site, "_instanciate_raw_mesh_data(data, dim): signature not recognised", "")
+        return
+    bad_class, bad_dim, unknown = {}, None, None
+    for r in (None, 0, 1, 2, 3):
+        for m in (0, 1, 2, 3):
+            data = hv.Obj(dimensionality=m, prepare=lambda *a: None)
+            ev = hv.Evaluator({ps[0]: data, ps[1]: r}, symbols=set(want.values()) | {"Mesh"})
+            try:
+                res = ev.run(fn.body)
+            except hv.Unknown as ex:
+                unknown = str(ex)
+                break
+            except hv.Raised as ex:
+                res = None
+            eff = m if r is None else max(r, m)
+            got = res.cls if isinstance(res, hv.Inst) else None
+            if got != want[eff]:
+                if r is None or r <= m:
+                    bad_class.setdefault(m, got)
+                else:
+                    bad_dim = bad_dim or (r, m, got)
+            elif not (len(res.args) == 1 and res.args[0] is data):
+                bad_class.setdefault(eff, got + "(other argument)")
+        if unknown:
+            break
+    if unknown:
+        ctx.undecided("C04-X1", site, "_instanciate_raw_mesh_data: class selection is written in a way the evaluation does not follow",
+                      unknown[:80])
+        return
     for k, cls in want.items():
-        g = got.get(k)
-        ctx.check(g is not None and g[0] == cls and g[1] == ps[:1], "C04-X1", site,
-                  f"dimension {k} is instantiated as {g[0] if g else 'nothing'} instead of {cls}",
-                  f"a loaded file whose content has dimensionality {k} must come back as a {cls}",
-                  note=f"dim {k} -> {cls}")
-    # the dimension used is at least the dimensionality of the data
-    dep = False
-    for st in au.stmts(fn.body):
-        if isinstance(st, ast.Assign) and dimname in au.assigned_names(st.targets[0]) and isinstance(st.value, ast.Call) \
-                and au.call_tail(st.value) == "max" and any(au.src(a) == f"{ps[0]}.dimensionality" for a in st.value.args) \
-                and any(au.src(a) == dimname for a in st.value.args):
-            dep = True
-    ctx.check(dep, "C04-X1", site, "class selection does not use max(dim, mesh_data.dimensionality)",
-              "the loaded object must have the class its content implies")
+        g = bad_class.get(k, cls) if k in bad_class else cls
+        ctx.check(k not in bad_class, "C04-X1", site,
+                  f"dimension {k} is instantiated as {g if g else 'nothing'} instead of {cls}",
+                  f"a loaded file whose content has dimensionality {k} must come back as a {cls}", note=f"dim {k} -> {cls}")
+    ctx.check(bad_dim is None, "C04-X1", site, "class selection does not use max(dim, mesh_data.dimensionality)",
+              f"requested dimension {bad_dim[0]} with data of dimensionality {bad_dim[1]} gives {bad_dim[2]}: the loaded object must have "
+              f"the class its content implies, promoted to the requested dimension" if bad_dim else "")
+
+
+def x1_save_preparation(ctx):
+    """save(): the cell adjacency read unconditionally by the geogram exporter is prepared exactly for (VolumeMesh, geogram file);
+    a container is emptied only when its kind is in ignore_elements, together with its corner containers"""
+    repo = ctx.repo
+    save0 = repo.func(MESH, "save")
+    ssite = ctx.site(MESH, save0)
+    save = hc_flat.flat(repo, MESH, save0, keep=KEEP)
+    b = sym.Bindings(save)
+    wfn = hc_flat.flat(repo, GEO, repo.func(GEO, "export_geogram_ascii"))
+    need = []
+    for c in au.calls(wfn):
+        if au.call_tail(c) == "get_attribute" and c.args and isinstance(c.args[0], ast.Constant) \
+                and isinstance(c.func.value, ast.Attribute):
+            nm, fld = c.args[0].value, c.func.value.attr
+            guarded = any(nm in au.src(t) and "has_attribute" in au.src(t) for t, pol in au.guards(c) if pol)
+            in_loop = any(isinstance(a, ast.For) and isinstance(a.iter, ast.Attribute) and a.iter.attr == "attributes" for a in au.ancestors(c))
+            if not guarded and not in_loop:
+                need.append((nm, fld, c))
+    made = set()
+    prep_calls = []
+    prep_resolved = False
+    for c in au.calls(save):
+        ch = au.chain(c.func)
+        if ch and len(ch) >= 3 and ch[-2] == "connectivity":
+            prep_calls.append(c)
+            q = "VolumeMesh._Connectivity." + ch[-1]
+            if repo.has_func("mesh.datatypes.volume", q):
+                m = repo.func("mesh.datatypes.volume", q)
+                prep_resolved = True
+                ctx.site("mesh.datatypes.volume", m)
+                for k in au.calls(m):
+                    if au.call_tail(k) == "create_attribute" and k.args and isinstance(k.args[0], ast.Constant) \
+                            and isinstance(k.func.value, ast.Attribute):
+                        made.add((k.args[0].value, k.func.value.attr))
+
+    def ev(test, V, G, at):
+        if isinstance(test, ast.Name):
+            d = b.reaching(test.id, at)
+            return ev(d, V, G, at) if d is not None else None
+        if isinstance(test, ast.BoolOp):
+            vals = [ev(v, V, G, at) for v in test.values]
+            return hc_text._and3(vals) if isinstance(test.op, ast.And) else hc_text._or3(vals)
+        if isinstance(test, ast.UnaryOp) and isinstance(test.op, ast.Not):
+            v = ev(test.operand, V, G, at)
+            return None if v is None else (not v)
+        if isinstance(test, ast.Call) and au.call_tail(test) == "isinstance" and len(test.args) == 2 \
+                and au.src(test.args[1]).endswith("VolumeMesh"):
+            return V
+        if isinstance(test, ast.Compare) and len(test.ops) == 1 and isinstance(test.ops[0], (ast.In, ast.NotIn)) \
+                and isinstance(test.left, ast.Constant) and isinstance(test.left.value, str) and "geogram" in test.left.value:
+            return G if isinstance(test.ops[0], ast.In) else (not G)
+        if isinstance(test, ast.Call) and au.call_tail(test) in ("endswith",) and test.args \
+                and isinstance(test.args[0], ast.Constant) and "geogram" in str(test.args[0].value):
+            return G
+        return None
+    for c in prep_calls:
+        def runs(V, G):
+            return hc_text._and3([(lambda v, pol: None if v is None else (v == pol))(ev(t, V, G, c), pol) for t, pol in au.guards(c)] or [True])
+        r_vg, r_sg, r_ss, r_vs = runs(True, True), runs(False, True), runs(False, False), runs(True, False)
+        site = ctx.site(MESH, save0, c)
+        if None in (r_vg, r_sg, r_ss):
+            ctx.undecided("C04-X1", site, "save(): condition under which the cell adjacency is prepared not recognised", "")
+        else:
+            ctx.check(r_vg and not r_sg and not r_ss, "C04-X1", site,
+                      "save(): the cell adjacency needed by the geogram exporter is not prepared exactly for volume meshes",
+                      f"prepared for (VolumeMesh, geogram file): {r_vg}; for another mesh class: {r_sg}: the export of a volume mesh "
+                      f"raises on the missing attribute, or a surface mesh is asked for a method it does not have",
+                      note="save(): adjacency prepared iff VolumeMesh and geogram file")
+    for nm, fld, c in need:
+        if not prep_calls or not prep_resolved:
+            ctx.undecided("C04-X1", ctx.site(GEO, "export_geogram_ascii", c),
+                          f"geogram: where mesh.{fld} attribute '{nm}' (read unconditionally by the exporter) is prepared is not recognised", "")
+        else:
+            ctx.check((nm, fld) in made, "C04-X1", ctx.site(GEO, "export_geogram_ascii", c),
+                      f"geogram: the exporter reads mesh.{fld} attribute '{nm}' unconditionally but save() does not have it created",
+                      f"save() prepares {sorted(made)} before a geogram export of a volume mesh; a missing attribute makes every "
+                      f"such save raise", note=f"geogram: save() creates {fld}.{nm} before the export reads it")
+    # ignore_elements
+    ps = au.params(save)
+    ig = ps[2] if len(ps) > 2 else None
+    fields = []
+    if repo.has_func(hc_text.MESHDATA, "RawMeshData.__init__"):
+        for st in au.stmts(repo.func(hc_text.MESHDATA, "RawMeshData.__init__").body):
+            for t in au.assign_targets(st):
+                if au.is_self_attr(t) and not t.attr.startswith("_"):
+                    fields.append(t.attr)
+    cleared = {}
+    for c in au.calls(save):
+        if au.call_tail(c) == "clear" and isinstance(c.func.value, ast.Attribute) and ig:
+            cont = c.func.value.attr
+            keys, other = [], False
+            for t, pol in au.guards(c):
+                if isinstance(t, ast.Compare) and len(t.ops) == 1 and isinstance(t.comparators[0], ast.Name) \
+                        and t.comparators[0].id == ig and isinstance(t.left, ast.Constant) and isinstance(t.ops[0], (ast.In, ast.NotIn)):
+                    keys.append((t.left.value, isinstance(t.ops[0], ast.In) == pol))
+                elif ig in au.names(t) and isinstance(t, ast.Compare) and len(t.ops) == 1 and isinstance(t.ops[0], (ast.Is, ast.IsNot)):
+                    continue
+                else:
+                    other = True
+            site = ctx.site(MESH, save0, c)
+            if not keys or other:
+                ctx.undecided("C04-X1", site, f"save(): condition under which mesh.{cont} is emptied not recognised", "")
+                continue
+            key = keys[0]
+            ok = key[1] and isinstance(key[0], str) and (cont == key[0] or cont.startswith(key[0][:-1] + "_"))
+            ctx.check(ok, "C04-X1", site,
+                      f"save(): mesh.{cont} is emptied under a condition that is not `'{cont.split('_')[0] + ('s' if '_' in cont else '')}' in {ig}`",
+                      f"guard key {key}: elements the caller did not ask to ignore are missing from the file",
+                      note=f"save(): {cont} cleared only when '{key[0]}' is ignored")
+            if ok:
+                cleared.setdefault(key[0], set()).add(cont)
+    for key, got in sorted(cleared.items()):
+        wantf = {f_ for f_ in fields if f_ == key or f_.startswith(key[:-1] + "_")}
+        ctx.check(wantf <= got, "C04-X1", ssite,
+                  f"save(): ignoring '{key}' leaves {sorted(wantf - got)} filled",
+                  f"the exporters write corner / facet containers of elements that are no longer in the file",
+                  note=f"save(): ignoring '{key}' clears {sorted(got)}")
 
 
 # ----------------------------------------------------------------------- C04-A1
-def a1_type_table(ctx):
+def a1_type_table(ctx, geo):
     repo = ctx.repo
     cls = repo.cls(ATTR, "_BaseAttribute.Type")
     fold = cc.Folder(cls)
     members = fold.members
-    ff.floor(ctx, "C04-A1 attribute types", len(members), 3, ctx.site(ATTR, "_BaseAttribute.Type"))
-    wfn, roles, n_lines, _hdr = ff.writer_type_fields(repo)
-    wsite = ctx.site(GEO, wfn)
-    if not roles or "to_string" not in roles or "byte_size" not in roles:
-        ctx.fail("C04-A1", wsite, "export_attribute: [ATTR] header with type name and byte size not found",
-                 "the attribute chunk header carries the type name and element byte size")
+    tsite = ctx.site(ATTR, "_BaseAttribute.Type")
+    if len(members) < 3:
+        ctx.undecided("C04-A1", tsite, "attribute type enumeration not recognised", "")
         return
+    hr = hc_geo.attr_header_roles(geo) if geo is not None else None
+    if not hr or "to_string" not in hr[0] or "byte_size" not in hr[0]:
+        ctx.undecided("C04-A1", ctx.site(GEO, "export_geogram_ascii"), "geogram: [ATTR] header with type name and byte size not recognised",
+                      "the attribute chunk header carries the type name and element byte size")
+        return
+    roles = hr[0]
     quoted = roles["to_string"][1]
     q = '"' if quoted else ""
-    # reader applies int() to the byte-size line?
     chunk_init = repo.func(GEO, "Chunk.__init__")
     bs_line = roles["byte_size"][0]
     data_param = au.params(chunk_init, skip_self=True)[0]
@@ -231,9 +444,13 @@ def a1_type_table(ctx):
         if isinstance(c.func, ast.Name) and c.func.id == "int" and len(c.args) == 1 and isinstance(c.args[0], ast.Subscript) \
                 and isinstance(c.args[0].value, ast.Name) and c.args[0].value.id == data_param:
             k = au.const(c.args[0].slice)
-            if isinstance(k, int) and any(isinstance(t, ast.Compare) and "ATTR" in au.src(t) for t, pol in au.guards(c) if pol):
+            if isinstance(k, int) and any("ATTR" in au.src(t) for t, pol in au.guards(c) if pol):
                 int_lines.add(k)
     bytes_parsed_as_int = bs_line in int_lines
+    for nm in ("from_string", "byte_size", "to_string"):
+        if not repo.has_func(ATTR, "_BaseAttribute.Type." + nm):
+            ctx.undecided("C04-A1", tsite, f"attribute type table: {nm} not found", "")
+            return
     fsite = ctx.site(ATTR, repo.func(ATTR, "_BaseAttribute.Type.from_string"))
     bsite = ctx.site(ATTR, repo.func(ATTR, "_BaseAttribute.Type.byte_size"))
     ctx.site(ATTR, repo.func(ATTR, "_BaseAttribute.Type.to_string"))
@@ -244,7 +461,7 @@ def a1_type_table(ctx):
             ctx.fail("C04-A1", fsite, f"to_string({name}) raises", str(ex))
             continue
         except cc.Unfoldable as ex:
-            ctx.fail("C04-A1", fsite, "to_string is no longer a constant-foldable table", f"cannot fold: {ex}")
+            ctx.undecided("C04-A1", fsite, "to_string is not a constant-foldable table", f"cannot fold: {ex}")
             return
         if not isinstance(s, str):
             ctx.fail("C04-A1", fsite, f"to_string({name}) is not a string", f"folded value {s!r}")
@@ -255,7 +472,7 @@ def a1_type_table(ctx):
         except cc.Raised as ex:
             back, why = None, f"from_string({q + s + q!r}) raises ({ex})"
         except cc.Unfoldable as ex:
-            ctx.fail("C04-A1", fsite, "from_string is no longer a constant-foldable table", f"cannot fold: {ex}")
+            ctx.undecided("C04-A1", fsite, "from_string is not a constant-foldable table", f"cannot fold: {ex}")
             return
         ctx.check(back == T, "C04-A1", fsite,
                   f"from_string does not map the written type name {q + s + q} back to {name}",
@@ -266,7 +483,7 @@ def a1_type_table(ctx):
         except cc.Raised as ex:
             bs = None
         except cc.Unfoldable as ex:
-            ctx.fail("C04-A1", bsite, "byte_size is no longer a constant-foldable table", f"cannot fold: {ex}")
+            ctx.undecided("C04-A1", bsite, "byte_size is not a constant-foldable table", f"cannot fold: {ex}")
             return
         ok = isinstance(bs, int) and not isinstance(bs, bool) and bs > 0
         ctx.check(ok or not bytes_parsed_as_int, "C04-A1", bsite, f"byte_size({name}) is {bs!r}, not an integer",
